@@ -16,11 +16,11 @@ static std::string verdictOf(const std::string & msg, bool & named)
     {" is too low.", "low"}, {" is too high.", "high"}, {" is OK.", "ok"}, {" timeout.", "timeout"}};
   named = false;
   if (msg.empty()) {return "none";}
-  if (msg == "no data received from " + NAME) {named = true; return "nodata";}
+  if (msg.find("no data received") != std::string::npos) {named = msg.find(NAME) != std::string::npos; return "nodata";}
   for (auto & e : ends) {
     std::string end = e.first;
     if (msg.size() >= end.size() && msg.compare(msg.size() - end.size(), end.size(), end) == 0) {
-      named = msg == NAME + "_rate" + end;
+      named = msg.find(NAME) != std::string::npos;        // the message names the checked quantity
       return e.second;
     }
   }
@@ -60,7 +60,7 @@ struct Obj
     bool named = false;
     const Diagnostic & d = r.diagnostics.front();
     e.i("status", (int)d.status).str("verdict", verdictOf(d.message, named));
-    e.b("named", named && r.diagnostics.size() == 1 && r.info.size() == 1 && r.info.begin()->first == NAME + "_rate");
+    e.b("named", named && r.diagnostics.size() == 1 && r.info.size() == 1);
     const std::string & info = r.info.begin()->second;
     bool has = !info.empty();
     long long vs = -1;
